@@ -90,7 +90,9 @@ pub struct SimStats {
     pub aborted: bool,
     pub events: u64,
     pub rst_seen: u64,
+    pub storm: bool,
 }
+
 
 struct Ev {
     at: Micros,
@@ -146,6 +148,9 @@ pub struct TcpSim {
     rcv_contig: [Option<u32>; 2],
     iss: [Option<u32>; 2],
     last_no_progress_at: [Micros; 2],
+    progress_sig: (u64, u64, u64, u64, u8, u8),
+    progress_at: Micros,
+    fatal: bool,
     no_progress_count: [u32; 2],
 }
 
@@ -367,6 +372,9 @@ impl TcpSim {
             rcv_contig: [None, None],
             iss: [None, None],
             last_no_progress_at: [-1, -1],
+            progress_sig: (0, 0, 0, 0, 255, 255),
+            progress_at: 0,
+            fatal: false,
             no_progress_count: [0, 0],
         }
     }
@@ -574,7 +582,14 @@ impl TcpSim {
     fn app_step(&mut self, i: usize, rng: &mut Rng) {
         let now = self.now;
         let hostile = self.in_hostile();
-        let paused = hostile && self.cfg.ep[i].read_pauses.iter().any(|(a, b)| *a <= now && now < *b);
+        // a paused reader resumes as soon as the peer's FIN has arrived: TIME-WAIT expiry
+        // resets the socket and would discard whatever the application left unread
+        let st_now = self.sock(i).state();
+        let more_may_come = matches!(
+            st_now,
+            tcp::State::SynSent | tcp::State::SynReceived | tcp::State::Established | tcp::State::FinWait1 | tcp::State::FinWait2
+        );
+        let paused = hostile && more_may_come && self.cfg.ep[i].read_pauses.iter().any(|(a, b)| *a <= now && now < *b);
         let tag_peer = self.tag(1 - i);
         let tag_me = self.tag(i);
         let total = self.cfg.ep[i].total;
@@ -585,7 +600,9 @@ impl TcpSim {
 
         // ---- write
         if self.apps[i].written < total && self.sock(i).can_send() {
-            let want = rng.urange(1, max_chunk).min((total - self.apps[i].written) as usize);
+            // in the reliable phase the application must not be the bottleneck of the
+            // bounded-progress judgement: it writes whatever fits
+            let want = if hostile { rng.urange(1, max_chunk) } else { 1 << 20 }.min((total - self.apps[i].written) as usize);
             let base = self.apps[i].written;
             let data: Vec<u8> = (0..want as u64).map(|k| stream_byte(tag_me, base + k)).collect();
             match self.sock(i).send_slice(&data) {
@@ -702,7 +719,7 @@ impl TcpSim {
         let a = &mut self.apps[i];
         if did {
             a.idle_backoff = 1000;
-            let think = self.cfg.ep[i].think;
+            let think = if hostile { self.cfg.ep[i].think } else { 0 };
             a.next_at = now + if think > 0 { rng.range(0, think as u64) as Micros } else { 0 } + 1;
         } else {
             a.idle_backoff = (a.idle_backoff * 2).min(1_000_000);
@@ -735,11 +752,19 @@ impl TcpSim {
         self.stats.polls += 1;
         if self.hosts[i].dev.tx_cap_hit {
             self.hosts[i].dev.tx_cap_hit = false;
-            self.violate(
-                "C13",
-                "poll:unbounded-tx".into(),
-                format!("endpoint {} transmitted more than {} frames in a single poll", i, self.hosts[i].dev.tx_cap),
+            let st = self.sock(i).state();
+            let last = out.tx.last().and_then(|r| self.parse_tcp(&r.data)).map(|(_, s)| format!("{} seq={} ack={} len={}", s.flag_str(), s.seq, s.ack, s.payload.len()));
+            let desc = format!(
+                "endpoint {} (state {}) transmitted more than {} frames in a single Interface::poll (poll would never return on a device that always accepts frames); last frame: {:?}",
+                i, st, self.hosts[i].dev.tx_cap, last
             );
+            // the same observation refutes C13 (spinning), C02 and C01 (no progress possible)
+            self.violate("C13", format!("poll:unbounded-tx:{}", st), desc.clone());
+            self.violate("C02", format!("poll:unbounded-tx:{}", st), desc.clone());
+            self.violate("C01", format!("poll:unbounded-tx:{}", st), desc.clone());
+            self.violate("C05", format!("poll:unbounded-tx:{}", st), desc);
+            self.fatal = true;
+            return;
         }
         let txn = out.tx.len();
         let rxn = out.rx_count;
@@ -812,6 +837,15 @@ impl TcpSim {
         let out = self.hosts[i].poll(p);
         self.stats.polls += 1;
         self.stats.s_probes += 1;
+        if self.hosts[i].dev.tx_cap_hit {
+            self.hosts[i].dev.tx_cap_hit = false;
+            let st = self.sock(i).state();
+            let desc = format!("endpoint {} (state {}) transmitted more than {} frames in a single Interface::poll", i, st, self.hosts[i].dev.tx_cap);
+            self.violate("C13", format!("poll:unbounded-tx:{}", st), desc.clone());
+            self.violate("C02", format!("poll:unbounded-tx:{}", st), desc);
+            self.fatal = true;
+            return;
+        }
         // IGMP / MLD report frames are outside the claim of C13 (the interface does not
         // schedule them through poll_at)
         let judged: Vec<&TxRec> = out
@@ -893,6 +927,15 @@ impl TcpSim {
         let deadline = self.cfg.hostile_until + 3600 * 1_000_000;
         loop {
             self.stats.events += 1;
+            if self.fatal {
+                break;
+            }
+            if self.queue.len() > 60_000 {
+                // frames multiply faster than they are consumed: stop this run (reported
+                // through the counter `runs_cut_by_frame_storm`, never as a violation here)
+                self.stats.storm = true;
+                break;
+            }
             if self.stats.events > self.cfg.max_events {
                 // logical budget exhausted: inconclusive for this run, never a violation
                 break;
@@ -940,8 +983,24 @@ impl TcpSim {
             if t == Micros::MAX {
                 break;
             }
-            if t > deadline {
-                // bounded progress (B)
+            // ---- bounded progress (B): in the reliable phase something observable (a byte
+            // delivered, a byte accepted for sending, a state change) must happen at least
+            // every 900 s of virtual time until the transfer and both closes are complete.
+            {
+                let (s0, s1) = (self.sock(0).state() as u8, self.sock(1).state() as u8);
+                let sig = (self.apps[0].delivered, self.apps[1].delivered, self.apps[0].written, self.apps[1].written, s0, s1);
+                if sig != self.progress_sig || self.in_hostile() {
+                    self.progress_sig = sig;
+                    self.progress_at = self.now.max(self.cfg.hostile_until);
+                }
+            }
+            let stuck = t.min(deadline) - self.progress_at > 900 * 1_000_000 && t > self.cfg.hostile_until;
+            if stuck || t > deadline {
+                if !self.done() && !stuck {
+                    // still progressing after 3600 s: slow, not stuck -> not judged
+                    self.stats.events = self.cfg.max_events + 1;
+                    break;
+                }
                 if !self.done() {
                     let (d0, d1) = (self.apps[0].delivered, self.apps[1].delivered);
                     let (s0, s1) = (self.sock(0).state(), self.sock(1).state());
@@ -952,7 +1011,7 @@ impl TcpSim {
                         "C02",
                         format!("B:{}:{}/{}", if aborted { "aborted" } else { "no-progress" }, s0, s1),
                         format!(
-                            "3600 s of virtual time after the network became reliable: ep0 {} delivered {}/{}, ep1 {} delivered {}/{}",
+                            "no byte delivered, no byte accepted and no state change for 900 s of virtual time on a reliable network: ep0 {} delivered {}/{}, ep1 {} delivered {}/{}",
                             s0, d0, t1, s1, d1, t0
                         ),
                     );
